@@ -47,6 +47,7 @@ fn main() {
                 v.sort();
                 // ... and the content of one nested file (a preprocessor may rewrite it in place)
                 if let Ok(c) = std::fs::read_to_string(std::path::Path::new(p).join("sub/file")) { v.push(format!("sub/file={c}")); }
+                if let Ok(c) = std::fs::read_to_string(std::path::Path::new(p).join("count")) { v.push(format!("count={c}")); v.retain(|x| x != "count"); }
                 v
             }).unwrap_or_default()
     } else { vec![] };
